@@ -823,6 +823,9 @@ func (f *frame) findLoops() {
 	})
 	for i, b := range hs {
 		f.heads[b].ordinal = i + 1
+		if os.Getenv("GOVC_DEBUG_LOOPS") != "" {
+			fmt.Fprintf(os.Stderr, "loop %d of %s: head block %d at %s\n", i+1, f.fn.Name(), b.Index, f.x.pos(loopPos(b, f.heads[b])))
+		}
 	}
 }
 
